@@ -20,7 +20,7 @@ NOT_APPLICABLE = {
 # claimed in DESIGN.md but whose check is not built yet (kept honest in the
 # manifest until the rule module exists and passes on the tree)
 PENDING = {}
-for _p in ['C01', 'C02', 'C03', 'C04', 'C05', 'C07', 'C08', 'C09', 'C10',
+for _p in ['C01', 'C02', 'C03', 'C04', 'C05', 'C09', 'C10',
            'C11', 'C12', 'C13', 'C15', 'C16', 'C18', 'C19']:
     PENDING[_p] = ('not claimed yet: the static rules designed for this '
                    'property (DESIGN.md section 4) are not built yet')
@@ -51,3 +51,43 @@ claim('C14',
       'interprocedural scope-coverage analysis (inlined CFG + lexical '
       'with-frames) and may-typestate dataflow over exception edges',
       'DESIGN.md §4 C14')
+
+
+claim('C07',
+      'Static guard-dominance and typestate proof over the CFGs of all '
+      'twelve Server._command_* handlers (helpers inlined), handle() and the '
+      'SmtpSession callbacks: every callback site is dominated by its '
+      'protocol preconditions; session flags become truthy only under the '
+      'success code; exactly one final reply per normal path; every '
+      'handler-mutable reply is followed by the close-code check which '
+      'raises for 221/421 and ends the loop; transaction state is reset at '
+      'every reset point; the Optional argument is never used unguarded. '
+      'This is the inductive step (per-command guards + resets) of the '
+      'abstract session state graph, decided for all paths rather than for '
+      'sampled command sequences.',
+      'Trusted: the precondition and reset tables in rules/c07.py (derived '
+      'from the property text), must-facts kill rules (aliasing through '
+      'unrelated objects is not tracked). Reply texts and the execution of '
+      'concrete command sequences are not decided.',
+      'guard-dominance (must-facts dataflow) and small-product typestate '
+      'over statement-level CFGs with inlined helpers',
+      'DESIGN.md §4 C07')
+
+claim('C08',
+      'Static proof obligations around the TLS boundary and AUTH: every '
+      'site that replaces self.socket by wrap_socket(...) empties the '
+      'receive buffer on its success path (effect-based discovery, both '
+      'sides); the success path of STARTTLS resets EHLO identity, '
+      'transaction flags and the STARTTLS extension (typestate); the AUTH '
+      'callback is dominated by its gating facts; mechanism.server_attempt '
+      'is unreachable with (insecure, unencrypted) and the insecure '
+      'predicate is live for PLAIN/LOGIN of the installed pysasl (its '
+      'sources are parsed, never imported); authenticated state only under '
+      '235; no malformed-input exception class escapes _command_AUTH '
+      '(exception-escape analysis with a decoder table).',
+      'Trusted: DECODER_RAISES table, the pysasl class layout as parsed '
+      'from site-packages, TLS itself. Byte-level behaviour of injected '
+      'plaintext is decided only structurally (buffer emptied at the swap).',
+      'effect-site discovery + must-after event dataflow, typestate, '
+      'exception-escape analysis over inlined CFGs',
+      'DESIGN.md §4 C08')
